@@ -114,6 +114,28 @@ impl Set {
                 cases.push(Case { len, sel: sel.clone(), context: 1, family: "non-array" });
             }
         }
+        // slices over arrays of thousands of elements (chunked / strided fast paths): bounds at
+        // the ends, in the interior and beyond, steps of both signs that do and do not divide
+        // the range
+        for (len, dense) in [(2047usize, false), (2048, true), (2049, true), (4097, false), (5000, true), (65_537, false)] {
+            let l = len as i64;
+            let mut bnds: Vec<Option<i64>> = vec![None, Some(0), Some(1), Some(10), Some(100), Some(l / 2), Some(l - 100), Some(l - 1), Some(l), Some(l + 1), Some(-1), Some(-4), Some(-100), Some(-(l / 2)), Some(-l + 1), Some(-l), Some(-l - 1)];
+            let mut stps: Vec<Option<i64>> = vec![None, Some(1), Some(2), Some(3), Some(5), Some(7), Some(64), Some(-1), Some(-2), Some(-3), Some(-5), Some(-7), Some(-64), Some(-l)];
+            if !dense {
+                bnds = bnds.into_iter().step_by(2).collect();
+                stps = stps.into_iter().step_by(2).collect();
+            }
+            for st in &bnds {
+                for en in &bnds {
+                    for sp in &stps {
+                        cases.push(Case { len, sel: Selector::Slice(*st, *en, *sp), context: 0, family: "large-array-slices" });
+                    }
+                }
+            }
+            for i in [0i64, 1, 2047, 2048, 2049, l - 1, l, -1, -2048, -2049, -l, -l - 1] {
+                cases.push(Case { len, sel: Selector::Index(i), context: 1, family: "large-array-slices" });
+            }
+        }
         // results beyond a million nodes
         for k in 0..SCALE.len() {
             cases.push(Case { len: k, sel: Selector::Wildcard, context: 0, family: "scale" });
